@@ -704,3 +704,46 @@ def _owner_loop(node: ast.AST) -> ast.AST | None:
             return None
         p = parent(p)
     return None
+
+
+# --------------------------------------------------------------------------- #
+# PARAM-USED
+
+
+def unused_parameters(fn: ast.AST) -> list[str]:
+    a = fn.args  # type: ignore[attr-defined]
+    params = [p.arg for p in [*a.posonlyargs, *a.args, *a.kwonlyargs]]
+    if a.vararg:
+        params.append(a.vararg.arg)
+    if a.kwarg:
+        params.append(a.kwarg.arg)
+    stmts = [s for s in fn.body if not (isinstance(s, ast.Expr) and isinstance(s.value, ast.Constant))]  # type: ignore[attr-defined]
+    if not stmts or all(isinstance(s, (ast.Pass, ast.Raise)) for s in stmts):
+        return []  # stub / abstract
+    if any(isinstance(d, ast.Name) and d.id == "overload" for d in fn.decorator_list):  # type: ignore[attr-defined]
+        return []
+    used = {x.id for s in fn.body for x in ast.walk(s) if isinstance(x, ast.Name)}  # type: ignore[attr-defined]
+    return [p for p in params if p not in ("self", "cls") and not p.startswith("_") and p not in used]
+
+
+def param_used(check: Check, mods: Iterable[Module], rule: str = "PARAM-USED") -> int:
+    check.rule(
+        rule,
+        "every parameter of a module-level function is read in its body (parameters whose name starts with "
+        "an underscore are declared unused): an entry point that accepts `type_resolver=` and never passes it "
+        "on type-checks, passes every test that does not use the option, and silently ignores what the "
+        "caller configured (methods are excluded: a base-class hook may ignore what its overrides use)",
+    )
+    n = 0
+    for mod in mods:
+        for fn in mod.functions():
+            if parent(fn) is not mod.tree:
+                continue
+            bad = unused_parameters(fn)
+            n += 1
+            check.ob(rule, fn, f"{fn.name}: parameters are used", not bad,
+                     "all read" if not bad else f"parameter(s) {bad} are accepted and never read", nontrivial=bool(bad))
+    fx = fixture("generic_controls")
+    check.control(f"{rule}:bad", bool(unused_parameters(fx.get("param_bad"))), True)
+    check.control(f"{rule}:ok", bool(unused_parameters(fx.get("swapped_ok"))), False)
+    return n
